@@ -137,7 +137,7 @@ def stepNew (toks : List String) : Option String :=
     let kwspin ← kv "kwspin=" kwspin
     let kwSpin : Option (Option Int) ← if kwspin == "absent" then pure none else (parseOptInt kwspin).map some
     let kwextra ← kv "kwextra=" kwextra
-    pure (showRes (ofExcept (new (.fresh 0) inMeta sh pos kwSpin (parseExtra kwextra))))
+    pure (showRes (resOfExcept (new (.fresh 0) inMeta sh pos kwSpin (parseExtra kwextra))))
   | _ => none
 
 def parseRoute (s : String) : Option Route :=
